@@ -115,6 +115,17 @@ class MemWriter:
     async def wait_closed(self): pass
 
 
+class RecTask(asyncio.Task):
+    """records cancellation requests (Task.cancel) — nothing else is changed"""
+    env = None
+
+    def cancel(self, msg=None):
+        env = RecTask.env
+        if env is not None and not self.done():
+            env.rec("creq", env.tasks.get(self, "?"))
+        return super().cancel(msg)
+
+
 class RecSemaphore(asyncio.Semaphore):
     def __init__(self, env, addr, value):
         super().__init__(value); self.env, self.addr = env, addr
@@ -341,6 +352,8 @@ def run(case):
     env = Env(case)
     timeout = case.get("timeout", 50)
     with installed() as loop:
+        RecTask.env = env
+        loop.set_task_factory(lambda lp, coro, **kw: RecTask(coro, loop=lp, **kw))
         creader = MemReader(env, "c")
         cwriter = MemWriter(env, "c", None, ("192.0.2.1", 51234), ("127.0.0.1", 8080))
         env.readers["c"] = creader; env.writers["c"] = cwriter
@@ -431,7 +444,8 @@ def run(case):
                 env.rec("snap", sum(1 for k in h.transports if k is not h.client),
                         sum(1 for l, w in env.writers.items() if l != "c" and not w.closing),
                         1 if h.client in h.transports else 0, 0 if cwriter.closing else 1,
-                        sum(size - sem._value for sem in h.max_conns.values()))
+                        sum(size - sem._value for sem in h.max_conns.values()),
+                        sum(len(sem._waiters or ()) for sem in h.max_conns.values()))
 
             for step in case["steps"]:
                 if task.done(): break
